@@ -2,10 +2,15 @@ package vrt
 
 import (
 	"fmt"
+	"os"
+	"runtime"
 	"testing"
 	"testing/synctest"
 	"time"
 )
+
+// DumpOnPanic makes RunOnce print all goroutine stacks when the bubble panics (debugging aid).
+var DumpOnPanic = os.Getenv("VERIF_DUMP") != ""
 
 // Exec is one execution handed to the harness body.
 type Exec struct {
@@ -58,6 +63,11 @@ func RunOnce(t *testing.T, h *Harness, prefix []int) (res *Result) {
 	defer func() {
 		if r := recover(); r != nil {
 			res.Diverged = fmt.Sprintf("bubble panicked: %v", r)
+			if DumpOnPanic {
+				buf := make([]byte, 1<<20)
+				n := runtime.Stack(buf, true)
+				fmt.Fprintf(os.Stderr, "%s\n", buf[:n])
+			}
 		}
 	}()
 	synctest.Test(t, func(t *testing.T) {
@@ -135,11 +145,7 @@ func Explore(t *testing.T, h *Harness, bound, shard, nshards int, stop func() bo
 					st.Nodes++
 				}
 				for alt := 1; alt < len(sp.Enabled); alt++ {
-					cost := pre
-					// choice 0 continues the last thread when it is still enabled; leaving it is a preemption
-					if i > 0 && sp.Enabled[0] == x.Steps[i-1].Thread {
-						cost++
-					}
+					cost := pre + sp.Costs[alt]
 					if cost > bound {
 						continue
 					}
